@@ -251,6 +251,11 @@ def install(interp):
                 acc = x
         return acc
 
+    import operator as _op
+
+    for _f, _node in ((_op.add, ast.Add), (_op.sub, ast.Sub), (_op.mul, ast.Mult)):
+        H[id(_f)] = (lambda it, args, kwargs, _node=_node: it.binop(_node, args[0], args[1]))
+
     # ---- operators on symbolic values ---------------------------------------------------------
     def sym_binop(op, a, b):
         # sequences
